@@ -58,6 +58,9 @@ type WriteOut struct {
 type Placeholder struct {
 	Top   string
 	Marks cty.ValueMarks
+	// Path: the block types from the root body down to the placeholder block
+	// (the last element is its own type), e.g. ["x", "z"].
+	Path []string
 }
 
 // Options of ExpandWith.
@@ -67,6 +70,12 @@ type Options struct {
 	// iterator key and value are both unknown values of the dynamic
 	// pseudo-type" (without it such a dynamic block is left out).
 	Placeholder bool
+	// PlaceholderCount (with Placeholder): how many copies of that block are
+	// written out for every unknown for_each; nil means one, as documented. The
+	// README also says that "the length of the collection may eventually be
+	// different than one": the other counts are the bodies the configuration
+	// may still turn out to be (every copy has its own unknown iterator).
+	PlaceholderCount *int
 }
 
 type binding struct {
@@ -169,7 +178,7 @@ func Expand(body *sg.Body, env map[string]cty.Value) *WriteOut {
 func ExpandWith(body *sg.Body, env map[string]cty.Value, opt Options) *WriteOut {
 	out := &WriteOut{Vars: map[string]cty.Value{}, BodyMarks: map[*sg.Body]cty.ValueMarks{}}
 	x := &expander{out: out, opt: opt}
-	out.Body = x.body(body, env, nil, "", nil, false)
+	out.Body = x.body(body, env, nil, "", nil, false, nil)
 	return out
 }
 
@@ -201,7 +210,7 @@ func rewrite(e sg.Expr, scope []binding) sg.Expr {
 
 // body writes out b. derived: the marks of the for_each collections of the
 // enclosing generated blocks; inPlaceholder: inside a placeholder block.
-func (x *expander) body(b *sg.Body, env map[string]cty.Value, scope []binding, top string, derived cty.ValueMarks, inPlaceholder bool) *sg.Body {
+func (x *expander) body(b *sg.Body, env map[string]cty.Value, scope []binding, top string, derived cty.ValueMarks, inPlaceholder bool, path []string) *sg.Body {
 	nb := &sg.Body{}
 	if b == nil {
 		return nb
@@ -214,8 +223,9 @@ func (x *expander) body(b *sg.Body, env map[string]cty.Value, scope []binding, t
 		if t == "" {
 			t = bl.Type
 		}
+		bpath := append(path[:len(path):len(path)], bl.Type)
 		if bl.Dyn == nil {
-			sb := x.body(bl.Body, env, scope, t, derived, inPlaceholder)
+			sb := x.body(bl.Body, env, scope, t, derived, inPlaceholder, bpath)
 			x.record(sb, derived)
 			nb.Blocks = append(nb.Blocks, sg.Block{Type: bl.Type, Labels: append([]string(nil), bl.Labels...), Body: sb})
 			continue
@@ -251,9 +261,15 @@ func (x *expander) body(b *sg.Body, env map[string]cty.Value, scope []binding, t
 		var keys, vals []cty.Value
 		placeholder := !coll.IsKnown()
 		if placeholder {
-			keys, vals = []cty.Value{cty.DynamicVal}, []cty.Value{cty.DynamicVal}
+			n := 1
+			if x.opt.PlaceholderCount != nil {
+				n = *x.opt.PlaceholderCount
+			}
+			for j := 0; j < n; j++ {
+				keys, vals = append(keys, cty.DynamicVal), append(vals, cty.DynamicVal)
+			}
 			if !inPlaceholder {
-				x.out.Placeholders = append(x.out.Placeholders, Placeholder{Top: t, Marks: inner})
+				x.out.Placeholders = append(x.out.Placeholders, Placeholder{Top: t, Marks: inner, Path: bpath})
 			}
 		} else {
 			keys, vals = Elements(coll)
@@ -308,7 +324,7 @@ func (x *expander) body(b *sg.Body, env map[string]cty.Value, scope []binding, t
 			if !placeholder {
 				x.out.Generated++
 			}
-			gb := x.body(bl.Body, env2, scope2, t, inner, inPlaceholder || placeholder)
+			gb := x.body(bl.Body, env2, scope2, t, inner, inPlaceholder || placeholder, bpath)
 			x.record(gb, inner)
 			nb.Blocks = append(nb.Blocks, sg.Block{Type: bl.Type, Labels: labels, Body: gb})
 		}
